@@ -168,13 +168,14 @@ Proof. exact id_checksum_inj. Qed.
 
 Example C14_runs :
   map run_case
-    [ mkCase M_create_account_path 0 true 0 true false false [];
-      mkCase M_create_account_path 0 true 3 true false false [];
-      mkCase M_create_account_path 0 true 1 true false false [1];
-      mkCase M_retrieve_txs 0 true 2 true false false [];
-      mkCase M_cancel_tx 0 true 4 true true false [];
-      mkCase M_cancel_tx 0 true 4 true false false [];
-      mkCase M_get_slatepack_secret_key 0 false 2 true false false [];
-      mkCase M_accounts 0 true 0 false false false [] ]
-  = [ [0; 1]; [1; 11; 0]; [1; 21; 0]; [0; 0]; [1; 21; 0]; [1; 11; 0]; [1; 11; 0]; [1; 21; 0] ]%Z.
+    [ mkCase M_create_account_path 0 true 0 true false false true [];
+      mkCase M_create_account_path 0 true 3 true false false true [];
+      mkCase M_create_account_path 0 true 1 true false false true [1];
+      mkCase M_retrieve_txs 0 true 2 true false false true [];
+      mkCase M_cancel_tx 0 true 4 true true false true [];
+      mkCase M_cancel_tx 0 true 4 true false false true [];
+      mkCase M_get_slatepack_secret_key 0 false 2 true false false true [];
+      mkCase M_accounts 0 true 0 false false false true [] ]
+  = [ [0; 1; 1]; [1; 11; 0; 0]; [1; 21; 0; 0]; [0; 0; 0]; [1; 21; 0; 0]; [1; 11; 0; 0];
+      [1; 11; 0; 0]; [1; 21; 0; 0] ]%Z.
 Proof. vm_compute. reflexivity. Qed.
